@@ -623,7 +623,7 @@ package schema
 
 //@ spec stepWF(s *CallableStepSchema[StepData, InputType]) bool = s.handler != nil && s.stepData != nil && s.InputValue != nil && (forall k string :: k in s.stepData ==> s.stepData[k] != nil && s.stepData[k].startedWG != nil) && (forall d any :: validOK(s.InputValue, d) ==> typeOf(d) == type(InputType))
 
-//@ monitor CallableStepSchema.initializerMutex protects stepData insert-only stepData
+//@ monitor CallableStepSchema.initializerMutex protects stepData insert-only stepData no-delete stepData
 //@ func CallableStepSchema.setupStepData(s, runID) -> res
 //@   requires s.stepData != nil && (forall k string :: k in s.stepData ==> s.stepData[k] != nil && s.stepData[k].startedWG != nil)
 //@   ensures res != nil && res.startedWG != nil && runID in s.stepData && s.stepData[runID] == res
@@ -1011,3 +1011,35 @@ package schema
 //@   ensures err == nil ==> any(res) == intEnumUnserV(i, data)
 //@ func verifC01IntEnum(s, data)
 //@   requires s != nil
+
+// ---------------------------------------------------------------------------------------------
+// Strengthened after the second round of independent seeded changes
+// ---------------------------------------------------------------------------------------------
+
+// C02: the any schema range-checks uint64 like the integer schema does (no silent wrap to a negative number)
+//@ func AnySchema.checkAndConvert(a, data) -> res, err
+//@   ensures typeOf(data) == type(uint64) && data.(uint64) > 9223372036854775807 ==> err != nil
+//@   ensures typeOf(data) == type(uint64) && data.(uint64) <= 9223372036854775807 ==> err == nil && res == any(int64(data.(uint64)))
+//@   ensures typeOf(data) == type(int64) ==> err == nil && res == data
+
+// C02 / C16: a unit string is rejected for its size exactly when the total does not fit in 64 bits
+//@ func UnitsDefinition.handleParseMultiplier(u, result, multiplier, intNumber, floatNumber, isFloat) -> newInt, newFloat, newIsFloat, err
+//@   ensures result != "" && !strings_Contains(result, ".") && parseint_ok(result) && parseint_val(result) >= 0 && !isFloat && intNumber + parseint_val(result) * multiplier <= 9223372036854775807 ==> err == nil
+
+// C03: a one-of only accepts maps whose keys are all strings
+//@ func OneOfSchema.UnserializeType(o, data) -> result, err
+//@   loop 1 invariant forall j int :: 0 <= j && j <= idx ==> typeOf(mapKey(data, j)) == type(string)
+//@   checks err == nil ==> (forall j int :: 0 <= j && j < listLen(data) ==> typeOf(mapKey(data, j)) == type(string))
+
+// C03: filling in sub-object defaults sets an absent property only to a non-empty map, and touches no other key
+//@ func ObjectSchema.applySubObjectDefaultValues(o, propertyID, property, rawData)
+//@   scope rawData != nil
+//@   ensures propertyID in rawData && !(propertyID in old(rawData)) ==> typeOf(rawData[propertyID]) == type(map[string]any) && len(rawData[propertyID].(map[string]any)) > 0
+//@   ensures forall k string :: k != propertyID ==> (k in rawData) == old(k in rawData)
+
+// C18: an error returned by the handler is reported as function-reported, with the handler's own error as its
+// source, whatever that error wraps
+//@ func CallableFunctionSchema.Call(f, arguments) -> res, err
+//@   checks len(arguments) == t_numin(rv_type(f.Handler)) && err != nil ==> typeOf(err) == type(*FunctionCallError)
+//@   checks len(arguments) == t_numin(rv_type(f.Handler)) && err != nil && t_numout(rv_type(f.Handler)) == expectedRets(f) + 1 && err.(*FunctionCallError).IsFunctionReportedError ==> err.(*FunctionCallError).SourceError == rv_iface(result[expectedRets(f)])
+//@   checks len(arguments) == t_numin(rv_type(f.Handler)) && t_numout(rv_type(f.Handler)) == expectedRets(f) + 1 && !rv_isnil(result[expectedRets(f)]) && implements(rv_iface(result[expectedRets(f)]), error) ==> err != nil && err.(*FunctionCallError).IsFunctionReportedError
